@@ -73,8 +73,9 @@ def unit_extract(ctx):
                    z3.And(z3.BoolVal(bool(ok)), p.value.term == p.state["A"].term) if ok else z3.BoolVal(False), func=LG + "_LabelGroupAny.__call__")
 
 
-def unit_defined_labels(ctx):
-    """has_defined_labels_for(arr, raise_error=True) raises AssertionError iff some non-zero value of arr is in no group."""
+def unit_defined_labels(ctx, dtype="uint16"):
+    """has_defined_labels_for(arr, raise_error=True) raises AssertionError iff some non-zero value of arr is in no group
+    (for signed maps a negative value is a non-zero value that belongs to no group: group labels are positive)."""
     eng = ctx.engine(feas_timeout_ms=1000)
     QN = SC + "SegmentationClassGroups.has_defined_labels_for"
     defined = lambda x: z3.Or(S1(x), S2(x), x == s3)
@@ -91,13 +92,13 @@ def unit_defined_labels(ctx):
 
     def mk(e):
         sp = Space("S")
-        A = base_array(e, "A", "uint16", sp)
+        A = base_array(e, "A", dtype, sp)
         groups = mk_groups(e)
         scg = e.new_obj(SC + "SegmentationClassGroups", _SegmentationClassGroups__group_dictionary=groups,
                         _SegmentationClassGroups__labels=SymSet(lambda x: defined(x), name="all_labels"))
         return [scg, A], {"raise_error": True}, {"sp": sp, "A": A}
     paths = eng.run(QN, mk)
-    nm = "segmentation_class.SegmentationClassGroups.has_defined_labels_for"
+    nm = f"segmentation_class.SegmentationClassGroups.has_defined_labels_for[{dtype}]"
     ctx.side_obligations(paths, nm, func=QN)
     ctx.expect(f"{nm}: a raising body path and a normal exit exist", any(p.kind == "raise" for p in paths) and any(p.kind == "return" for p in paths))
     v0 = z3.Const("v_any", Vox)
@@ -267,6 +268,7 @@ def build(ctx):
     ctx.trust("np.isin / masked assignment / np.unique (voxel-set theory)", "panoptic_evaluate is summarised here (its pipeline is C01); purity of panoptic_evaluate is C15")
     ctx.unit("extract", lambda: unit_extract(ctx))
     ctx.unit("defined_labels", lambda: unit_defined_labels(ctx))
+    ctx.unit("defined_labels[int16]", lambda: unit_defined_labels(ctx, "int16"))
     ctx.unit("ctor", lambda: unit_ctor(ctx))
     for it in ("SEMANTIC", "UNMATCHED_INSTANCE", "MATCHED_INSTANCE"):
         for grouped in (True, False):
